@@ -199,5 +199,5 @@ class WeightingQuery(WrappingQuery):
 
     def matcher(self, searcher, context=None):
         # Replace the passed-in weighting with the one configured on this query
-        context.set(weighting=self.weighting)
+        context = context.set(weighting=self.weighting)
         return self.child.matcher(searcher, context)
